@@ -66,6 +66,7 @@ def handleTT (ins outs : List J) : Verdict :=
                -- non-integer DoF (Welch): series reference through the incomplete beta function
                let tAbs := I.sqrt (I.ofRat t2)
                let lo := ratMax 0 (tAbs.lo * (1 - rt) - rt); let hi := tAbs.hi * (1 + rt) + rt
+               if !Special.lgammaOK [st.dof / 2, 1 / 2, st.dof / 2 + 1 / 2] then [("reference-consistency", false, "the proved log Gamma enclosure did not terminate")] else
                match Special.tCDFgen st.dof lo, Special.tCDFgen st.dof hi with
                | some cl, some ch =>
                  let cAbs : I := ⟨cl.lo, ch.hi⟩              -- CDF(|T|)
